@@ -4,6 +4,7 @@ name=$1; checks=$2
 cd /verif
 export PATH=/opt/veriftools/go1.26.8/bin:$PATH GOTOOLCHAIN=local GOFLAGS=-mod=mod GOPROXY=off GOWORK=off
 if [ "$checks" = "-" ]; then echo "$name: (documented miss)"; exit 0; fi
+if [ "$checks" = "obsolete" ]; then echo "$name: (obsolete: the code it changes was rewritten by a later fix)"; exit 0; fi
 S=$(mktemp -d /tmp/mut.XXXXXX); O=$(mktemp -d /tmp/mutout.XXXXXX); trap 'rm -rf $S $O' EXIT
 rsync -a --exclude .git /repo/ $S/; cp known_findings.json $O/
 if [[ $name == revert-* ]]; then
